@@ -4939,16 +4939,30 @@ class NameCheckVisitor(node_visitor.ReplacingNodeVisitor):
         else:
             varname = None
         if isinstance(root_composite.value, MultiValuedValue):
+            is_load = isinstance(node.ctx, ast.Load)
             values = [
                 self._composite_from_subscript_no_mvv(
                     node,
                     Composite(val, root_composite.varname, root_composite.node),
                     index_composite,
-                    varname,
+                    # The value tracked for the subscript as a whole is looked up once,
+                    # below: the lookup is remembered per node, so doing it for every
+                    # member would give all of them the result of the first one.
+                    None if is_load else varname,
                 )
                 for val in root_composite.value.vals
             ]
             return_value = unite_values(*values)
+            if (
+                is_load
+                and varname is not None
+                and self.scopes.scope_type() == ScopeType.function_scope
+            ):
+                local_value = self._get_composite(
+                    varname.get_varname(), node, return_value
+                )
+                if local_value is not UNINITIALIZED_VALUE:
+                    return_value = local_value
         else:
             return_value = self._composite_from_subscript_no_mvv(
                 node, root_composite, index_composite, varname
